@@ -363,6 +363,12 @@ def LitShape : Bytes → Prop
     if q == 34 || q == 39 then ∃ r, ∀ a, unquoteLoop q rest a = .ok (a ++ r)
     else ∀ c ∈ q :: rest, isAllowedInUnquotedString c = true
 
+/-- a complete literal, with what the scanner knows about it: bytes of the unquoted class, or a quoted string whose
+body is a run of complete items closed by its own quote -/
+def LitDone (acc : Bytes) : Prop :=
+  (acc ≠ [] ∧ ∀ c ∈ acc, isAllowedInUnquotedString c = true) ∨
+  (∃ q body r, (q = 34 ∨ q = 39) ∧ acc = q :: (body ++ [q]) ∧ Norm q body r)
+
 def isU (st : St) : Prop :=
   st = .inUnquoted ∨ st = .num1 ∨ st = .numDot ∨ st = .numDot0 ∨ st = .numExp ∨ st = .numExp0
 
@@ -373,9 +379,9 @@ def LitInv (arr : Bool) (σ : List PS) (s : Scanner) (acc : Bytes) : Prop :=
   ∨ (s.st = .inDqEsc ∧ ∃ body r, acc = 34 :: (body ++ [92]) ∧ Norm 34 body r)
   ∨ (s.st = .inSq ∧ ∃ body r, acc = 39 :: body ∧ Norm 39 body r)
   ∨ (s.st = .inSqEsc ∧ ∃ body r, acc = 39 :: (body ++ [92]) ∧ Norm 39 body r)
-  ∨ ((isU s.st ∨ (arr = true ∧ s.st = .listOrArrayT ∧ ∃ r, σ = .listValue :: r)) ∧
+  ∨ ((isU s.st ∨ (arr = true ∧ s.st = .listOrArrayT ∧ (∃ r, σ = .listValue :: r) ∧ acc.length = 1)) ∧
         acc ≠ [] ∧ ∀ c ∈ acc, isAllowedInUnquotedString c = true)
-  ∨ (s.st = .endValue ∧ LitShape acc) )
+  ∨ (s.st = .endValue ∧ LitDone acc) )
 
 theorem litShape_of_allowed (acc : Bytes) (h1 : acc ≠ []) (h2 : ∀ c ∈ acc, isAllowedInUnquotedString c = true) :
     LitShape acc := by
@@ -386,6 +392,145 @@ theorem litShape_of_allowed (acc : Bytes) (h1 : acc ≠ []) (h2 : ∀ c ∈ acc,
     have := allowed_not_quote q (h2 q (by simp))
     simp only [this.1, this.2, Bool.or_self, Bool.false_eq_true, if_false]
     exact h2
+
+theorem LitDone.shape {acc : Bytes} (h : LitDone acc) : LitShape acc := by
+  rcases h with ⟨h1, h2⟩ | ⟨q, body, r, hq, ha, hn⟩
+  · exact litShape_of_allowed acc h1 h2
+  · rw [ha]
+    unfold LitShape
+    have : (q == 34 || q == 39) = true := by rcases hq with e | e <;> subst e <;> decide
+    simp only [this, if_true]
+    refine ⟨r, fun a => ?_⟩
+    have := hn.close [] a
+    simpa using this
+
+/-- `stateEndValue` accepts only white space and the delimiters `: , } ]` (at the top level any other byte is
+recorded as an error in the scanner, which the final `scanWhile(scanEnd)` reports) -/
+theorem stEndValue_ok_not_allowed (s : Scanner) (c : Byte) (h : (stEndValue s c).2 ≠ .error)
+    (he : s.stack ≠ [] ∨ (stEndValue s c).1.err = false) : isAllowedInUnquotedString c = false := by
+  have hd : ∀ c : Byte, (isSpace c = true ∨ c = 58 ∨ c = 44 ∨ c = 125 ∨ c = 93) → isAllowedInUnquotedString c = false := by
+    have : ∀ n : Fin (2^8), (let c : Byte := BitVec.ofFin n
+        (isSpace c = true ∨ c = 58 ∨ c = 44 ∨ c = 125 ∨ c = 93) → isAllowedInUnquotedString c = false) := by
+      decide +kernel
+    exact fun c => this c.toFin
+  unfold stEndValue at h he
+  cases hs : s.stack with
+  | nil =>
+    rw [hs] at h he; dsimp only at h he
+    unfold stEndTop at he
+    by_cases hsp : isSpace c = true
+    · exact hd c (Or.inl hsp)
+    · simp [hsp, Scanner.error] at he
+  | cons ps r =>
+    rw [hs] at h; dsimp only at h
+    by_cases hsp : isSpace c = true
+    · exact hd c (Or.inl hsp)
+    · rw [if_neg hsp] at h
+      cases ps <;> dsimp only at h
+      · by_cases h1 : (c == 58) = true
+        · exact hd c (Or.inr (Or.inl (eq_of_beq h1)))
+        · rw [if_neg h1] at h; simp [Scanner.error] at h
+      · by_cases h1 : (c == 44) = true
+        · exact hd c (Or.inr (Or.inr (Or.inl (eq_of_beq h1))))
+        · rw [if_neg h1] at h
+          by_cases h2 : (c == 125) = true
+          · exact hd c (Or.inr (Or.inr (Or.inr (Or.inl (eq_of_beq h2)))))
+          · rw [if_neg h2] at h; simp [Scanner.error] at h
+      · by_cases h1 : (c == 44) = true
+        · exact hd c (Or.inr (Or.inr (Or.inl (eq_of_beq h1))))
+        · rw [if_neg h1] at h
+          by_cases h2 : (c == 93) = true
+          · exact hd c (Or.inr (Or.inr (Or.inr (Or.inr (eq_of_beq h2)))))
+          · rw [if_neg h2] at h; simp [Scanner.error] at h
+
+/-- under a non-empty stack `stateEndValue` answers `scanSkipSpace` exactly on white space -/
+theorem stEndValue_wsrel (s : Scanner) (c : Byte) (hs : s.stack ≠ []) :
+    ((stEndValue s c).2 = .skipSpace → isSpace c = true) ∧ ((stEndValue s c).2 ≠ .skipSpace → isSpace c = false) := by
+  unfold stEndValue
+  cases hst : s.stack with
+  | nil => exact absurd hst hs
+  | cons ps r =>
+    dsimp only
+    by_cases hsp : isSpace c = true
+    · rw [if_pos hsp]; exact ⟨fun _ => hsp, fun h => absurd rfl h⟩
+    · rw [if_neg hsp]
+      refine ⟨fun h => ?_, fun _ => by simpa using hsp⟩
+      exfalso; revert h
+      cases ps <;> dsimp only <;> (repeat' split) <;> simp [Scanner.error]
+
+/-- relation between the opcode of a step that ended a value (under the stack `σ`) and the byte it consumed:
+`scanSkipSpace` exactly on white space, and each delimiter opcode on its own character -/
+def WsRel (σ : List PS) (o : Op) (c : Byte) : Prop :=
+  (o = .skipSpace → isSpace c = true) ∧ (o ≠ .skipSpace → σ ≠ [] → isSpace c = false) ∧
+  (o = .compoundTagName → c = 58) ∧ (o = .compoundValue → c = 44) ∧ (o = .listValue → c = 44) ∧
+  (o = .endValue → (∃ r, σ = .compoundValue :: r ∧ c = 125) ∨ (∃ r, σ = .listValue :: r ∧ c = 93))
+
+theorem stEndValue_WsRel (σ : List PS) (s : Scanner) (c : Byte) (h2 : s.stack = σ) :
+    WsRel σ (stEndValue s c).2 c := by
+  unfold stEndValue
+  cases σ with
+  | nil =>
+    rw [h2]; dsimp only; unfold stEndTop
+    refine ⟨?_, fun _ h => absurd rfl h, ?_, ?_, ?_, ?_⟩ <;> (split <;> simp)
+  | cons ps r =>
+    rw [h2]; dsimp only
+    by_cases hsp : isSpace c = true
+    · rw [if_pos hsp]
+      exact ⟨fun _ => hsp, fun h => absurd rfl h, by simp, by simp, by simp, by simp⟩
+    · rw [if_neg hsp]
+      have hsp' : isSpace c = false := by simpa using hsp
+      cases ps <;> dsimp only
+      · by_cases h1 : (c == 58) = true
+        · rw [if_pos h1]
+          exact ⟨by simp, fun _ _ => hsp', fun _ => eq_of_beq h1, by simp, by simp, by simp⟩
+        · rw [if_neg h1]
+          exact ⟨by simp [Scanner.error], fun _ _ => hsp', by simp [Scanner.error], by simp [Scanner.error],
+            by simp [Scanner.error], by simp [Scanner.error]⟩
+      · by_cases h1 : (c == 44) = true
+        · rw [if_pos h1]
+          exact ⟨by simp, fun _ _ => hsp', by simp, fun _ => eq_of_beq h1, by simp, by simp⟩
+        · rw [if_neg h1]
+          by_cases h3 : (c == 125) = true
+          · rw [if_pos h3]
+            exact ⟨by simp, fun _ _ => hsp', by simp, by simp, by simp, fun _ => Or.inl ⟨r, rfl, eq_of_beq h3⟩⟩
+          · rw [if_neg h3]
+            exact ⟨by simp [Scanner.error], fun _ _ => hsp', by simp [Scanner.error], by simp [Scanner.error],
+              by simp [Scanner.error], by simp [Scanner.error]⟩
+      · by_cases h1 : (c == 44) = true
+        · rw [if_pos h1]
+          exact ⟨by simp, fun _ _ => hsp', by simp, by simp, fun _ => eq_of_beq h1, by simp⟩
+        · rw [if_neg h1]
+          by_cases h3 : (c == 93) = true
+          · rw [if_pos h3]
+            exact ⟨by simp, fun _ _ => hsp', by simp, by simp, by simp, fun _ => Or.inr ⟨r, rfl, eq_of_beq h3⟩⟩
+          · rw [if_neg h3]
+            exact ⟨by simp [Scanner.error], fun _ _ => hsp', by simp [Scanner.error], by simp [Scanner.error],
+              by simp [Scanner.error], by simp [Scanner.error]⟩
+
+/-- after the top-level value: white space keeps the scanner waiting for the end of the text, any other byte puts
+it into the error state -/
+def TopSt (σ : List PS) (s : Scanner) (c : Byte) : Prop :=
+  σ = [] → (isSpace c = true ∧ s.st = .endTop) ∨ (s.st = .error ∧ s.err = true)
+
+theorem stEndValue_TopSt (σ : List PS) (s : Scanner) (c : Byte) (h2 : s.stack = σ) :
+    TopSt σ (stEndValue s c).1 c := by
+  intro hσ
+  unfold stEndValue
+  rw [h2, hσ]; dsimp only
+  unfold stEndTop
+  by_cases hsp : isSpace c = true
+  · simp [hsp]
+  · simp [hsp, Scanner.error]
+
+theorem stEndValue_ne_listType (s : Scanner) (c : Byte) : (stEndValue s c).2 ≠ .listType := by
+  unfold stEndValue
+  cases hs : s.stack with
+  | nil => dsimp only; unfold stEndTop; split <;> simp
+  | cons ps r =>
+    dsimp only
+    split
+    · simp
+    · cases ps <;> dsimp only <;> (repeat' split) <;> simp [Scanner.error]
 
 theorem LitStart.inv {arr : Bool} {σ : List PS} {s : Scanner} {c : Byte} (h : LitStart arr σ s c) :
     LitInv arr σ s [c] := by
@@ -399,7 +544,7 @@ theorem LitStart.inv {arr : Bool} {σ : List PS} {s : Scanner} {c : Byte} (h : L
     rcases a with a | a | a
     · left; left; exact a
     · left; right; left; exact a
-    · right; exact a
+    · right; exact ⟨a.1, a.2.1, a.2.2, rfl⟩
 
 
 
@@ -519,7 +664,9 @@ theorem Lit_of_UOut (arr : Bool) (σ : List PS) (s : Scanner) (c : Byte) (acc : 
     (h2 : s.stack = σ) (h3 : s.endTop = false) (ha : acc ≠ [])
     (hall : ∀ x ∈ acc, isAllowedInUnquotedString x = true) (hu : UOut s c r) :
     (r.2 = .cont → LitInv arr σ r.1 (acc ++ [c])) ∧
-    (r.2 ≠ .cont → r.2 = .error ∨ (LitShape acc ∧ LitOk arr σ r.1 r.2)) := by
+    (r.2 ≠ .cont → r.2 = .error ∨ (LitDone acc ∧ LitOk arr σ r.1 r.2 ∧
+      ((σ ≠ [] ∨ r.1.err = false) → isAllowedInUnquotedString c = false) ∧ WsRel σ r.2 c ∧
+      (r.2 = .listType → c = 59 ∧ acc.length = 1) ∧ TopSt σ r.1 c)) := by
   rcases hu with ⟨st', e, hst, hc⟩ | e | e
   · rw [e]
     refine ⟨fun _ => ⟨h2, h3, ?_⟩, fun h => absurd rfl h⟩
@@ -527,13 +674,16 @@ theorem Lit_of_UOut (arr : Bool) (σ : List PS) (s : Scanner) (c : Byte) (acc : 
     · right; right; right; right; left
       exact ⟨Or.inl hst, by simp, allowed_append hall hc⟩
     · right; right; right; right; right
-      exact ⟨hst, litShape_of_allowed _ (by simp) (allowed_append hall hc)⟩
+      exact ⟨hst, Or.inl ⟨by simp, allowed_append hall hc⟩⟩
   · rw [e]
     have := stEndValue_lit arr σ s c h2 h3
     refine ⟨fun h => absurd h this.1, fun _ => ?_⟩
-    rcases this.2 with h | h
-    · exact Or.inl h
-    · exact Or.inr ⟨litShape_of_allowed acc ha hall, h⟩
+    by_cases herr : (stEndValue s c).2 = .error
+    · exact Or.inl herr
+    · rcases this.2 with h | h
+      · exact Or.inl h
+      · exact Or.inr ⟨Or.inl ⟨ha, hall⟩, h, fun he => stEndValue_ok_not_allowed s c herr (by rw [h2]; exact he),
+          stEndValue_WsRel σ s c h2, fun hl => absurd hl (stEndValue_ne_listType s c), stEndValue_TopSt σ s c h2⟩
   · rw [e]
     exact ⟨fun h => by simp [Scanner.error] at h, fun _ => Or.inl rfl⟩
 
@@ -543,7 +693,11 @@ theorem q39 : ((92 : Byte) == (39 : Byte)) = false := by decide
 /-- one scanner step inside a literal -/
 theorem Lit_step (arr : Bool) (σ : List PS) (s : Scanner) (acc : Bytes) (c : Byte) (h : LitInv arr σ s acc) :
     ((s.step c).2 = .cont → LitInv arr σ (s.step c).1 (acc ++ [c])) ∧
-    ((s.step c).2 ≠ .cont → (s.step c).2 = .error ∨ (LitShape acc ∧ LitOk arr σ (s.step c).1 (s.step c).2)) := by
+    ((s.step c).2 ≠ .cont → (s.step c).2 = .error ∨
+      (LitDone acc ∧ LitOk arr σ (s.step c).1 (s.step c).2 ∧
+        ((σ ≠ [] ∨ (s.step c).1.err = false) → isAllowedInUnquotedString c = false) ∧
+        WsRel σ (s.step c).2 c ∧ ((s.step c).2 = .listType → c = 59 ∧ acc.length = 1) ∧
+        TopSt σ (s.step c).1 c)) := by
   obtain ⟨h2, h3, hd⟩ := h
   rcases hd with ⟨hst, body, r, ha, hn⟩ | ⟨hst, body, r, ha, hn⟩ | ⟨hst, body, r, ha, hn⟩ | ⟨hst, body, r, ha, hn⟩
       | ⟨hst, ha, hall⟩ | ⟨hst, hsh⟩
@@ -563,10 +717,7 @@ theorem Lit_step (arr : Bool) (σ : List PS) (s : Scanner) (acc : Bytes) (c : By
         subst this
         refine ⟨fun _ => ⟨h2, h3, Or.inr (Or.inr (Or.inr (Or.inr (Or.inr ⟨rfl, ?_⟩))))⟩, fun h => absurd rfl h⟩
         rw [ha]
-        simp only [List.cons_append, LitShape]
-        refine ⟨r, fun a => ?_⟩
-        have := hn.close [] a
-        simpa using this
+        exact Or.inr ⟨34, body, r, Or.inl rfl, by simp, hn⟩
       · rename_i hc1 hc2
         refine ⟨fun _ => ⟨h2, h3, Or.inl ⟨hst, body ++ [c], r ++ [c], by rw [ha]; rfl, ?_⟩⟩, fun h => absurd rfl h⟩
         exact hn.snoc c (by simpa using hc2) (by simpa using hc1)
@@ -595,10 +746,7 @@ theorem Lit_step (arr : Bool) (σ : List PS) (s : Scanner) (acc : Bytes) (c : By
         subst this
         refine ⟨fun _ => ⟨h2, h3, Or.inr (Or.inr (Or.inr (Or.inr (Or.inr ⟨rfl, ?_⟩))))⟩, fun h => absurd rfl h⟩
         rw [ha]
-        simp only [List.cons_append, LitShape]
-        refine ⟨r, fun a => ?_⟩
-        have := hn.close [] a
-        simpa using this
+        exact Or.inr ⟨39, body, r, Or.inr rfl, by simp, hn⟩
       · rename_i hc1 hc2
         refine ⟨fun _ => ⟨h2, h3, Or.inr (Or.inr (Or.inl ⟨hst, body ++ [c], r ++ [c], by rw [ha]; rfl, ?_⟩))⟩, fun h => absurd rfl h⟩
         exact hn.snoc c (by simpa using hc2) (by simpa using hc1)
@@ -611,15 +759,21 @@ theorem Lit_step (arr : Bool) (σ : List PS) (s : Scanner) (acc : Bytes) (c : By
         fun h => absurd rfl h⟩
     · exact ⟨fun h => by simp [Scanner.error] at h, fun _ => Or.inl rfl⟩
   · -- unquoted / numeric
-    rcases hst with hu | ⟨harr, hst, r, hσ⟩
+    rcases hst with hu | ⟨harr, hst, ⟨r, hσ⟩, hlen1⟩
     · exact Lit_of_UOut arr σ s c acc _ h2 h3 ha hall (U_step s c hu)
     · have key : s.step c = (if c == 59 then ({ s with st := .arrayT }, .listType)
           else stInUnquoted { s with st := .inUnquoted } c) := by
         unfold Scanner.step; rw [hst]
       rw [key]
       split
-      · refine ⟨(by intro h; cases h), fun _ => Or.inr ⟨litShape_of_allowed acc ha hall, Or.inr (Or.inr ⟨harr, rfl, r, hσ, ?_⟩)⟩⟩
-        exact ⟨rfl, by rw [← hσ]; exact h2, h3⟩
+      · rename_i hc59
+        refine ⟨(by intro h; cases h), fun _ => Or.inr ⟨Or.inl ⟨ha, hall⟩, Or.inr (Or.inr ⟨harr, rfl, r, hσ, ?_⟩), ?_⟩⟩
+        · exact ⟨rfl, by rw [← hσ]; exact h2, h3⟩
+        · have : c = 59 := eq_of_beq hc59
+          subst this
+          exact ⟨fun _ => by decide, ⟨(by intro h; cases h), fun _ _ => by decide, (by intro h; cases h),
+            (by intro h; cases h), (by intro h; cases h), (by intro h; cases h)⟩, fun _ => ⟨rfl, hlen1⟩,
+            (by intro h; rw [hσ] at h; cases h)⟩
       · have hu : UOut { s with st := .inUnquoted } c (stInUnquoted { s with st := .inUnquoted } c) :=
           stInUnquoted_U _ c (Or.inl rfl)
         have := Lit_of_UOut arr σ { s with st := .inUnquoted } c acc _ h2 h3 ha hall hu
@@ -629,9 +783,12 @@ theorem Lit_step (arr : Bool) (σ : List PS) (s : Scanner) (acc : Bytes) (c : By
     rw [key]
     have := stEndValue_lit arr σ s c h2 h3
     refine ⟨fun h => absurd h this.1, fun _ => ?_⟩
-    rcases this.2 with h | h
-    · exact Or.inl h
-    · exact Or.inr ⟨hsh, h⟩
+    by_cases herr : (stEndValue s c).2 = .error
+    · exact Or.inl herr
+    · rcases this.2 with h | h
+      · exact Or.inl h
+      · exact Or.inr ⟨hsh, h, fun he => stEndValue_ok_not_allowed s c herr (by rw [h2]; exact he),
+          stEndValue_WsRel σ s c h2, fun hl => absurd hl (stEndValue_ne_listType s c), stEndValue_TopSt σ s c h2⟩
 
 
 
@@ -928,9 +1085,9 @@ theorem stEndValue_space_top (σ : List PS) (s : Scanner) (h2 : s.stack = σ) (h
 
 /-- end of input inside or right after a literal -/
 theorem Lit_eof (arr : Bool) (σ : List PS) (s : Scanner) (acc : Bytes) (h : LitInv arr σ s acc) :
-    s.eof.2 = .error ∨ (LitShape acc ∧ EndOk σ s.eof.1 s.eof.2) := by
+    s.eof.2 = .error ∨ (LitDone acc ∧ EndOk σ s.eof.1 s.eof.2) := by
   obtain ⟨h2, h3, hd⟩ := h
-  have main : (s.step 32#8).1.endTop = false ∨ (σ = [] ∧ (s.step 32#8).2 = .end_ ∧ LitShape acc) := by
+  have main : (s.step 32#8).1.endTop = false ∨ (σ = [] ∧ (s.step 32#8).2 = .end_ ∧ LitDone acc) := by
     rcases hd with ⟨hst, _⟩ | ⟨hst, _⟩ | ⟨hst, _⟩ | ⟨hst, _⟩ | ⟨hst, ha, hall⟩ | ⟨hst, hsh⟩
     · left
       have key : s.step 32#8 = (s, .cont) := by unfold Scanner.step; rw [hst]; simp
@@ -944,8 +1101,8 @@ theorem Lit_eof (arr : Bool) (σ : List PS) (s : Scanner) (acc : Bytes) (h : Lit
     · left
       have key : s.step 32#8 = Scanner.error s := by unfold Scanner.step; rw [hst]; simp
       rw [key]; exact h3
-    · have hsh := litShape_of_allowed acc ha hall
-      rcases hst with hu | ⟨_, hst, r, hσ⟩
+    · have hsh : LitDone acc := Or.inl ⟨ha, hall⟩
+      rcases hst with hu | ⟨_, hst, ⟨r, hσ⟩, _⟩
       · rcases U_step s 32#8 hu with ⟨st', e, _, hc⟩ | e | e
         · rw [not_allowed_32] at hc; cases hc
         · rw [e]
